@@ -1905,6 +1905,7 @@ def dict_method(it, dv, name, args, kwargs, node):
         known = list(d.items.items()) if d.items else []
         u.elem = lambda: VTuple([VUnknown("key(%s)" % d.origin, "str"), el if el is not None else (known[0][1] if known else VUnknown("val(%s)" % d.origin, "unknown", d.origin))])
         u.known = known
+        u.of_dict = dv
         return u
     if name == "values":
         if d.items is not None and not d.extra_unknown:
